@@ -51,11 +51,14 @@ use crate::Msg;
 use crossbeam_channel::{bounded, SendTimeoutError, Sender};
 use std::io;
 use std::io::Write;
+#[cfg(not(tokio_rs_tracing_verif))]
 use std::sync::atomic::AtomicUsize;
 use std::sync::atomic::Ordering;
 use std::sync::Arc;
 use std::thread::JoinHandle;
 use std::time::Duration;
+#[cfg(tokio_rs_tracing_verif)]
+use tracing_subscriber::__verif::atomic::AtomicUsize;
 use tracing_subscriber::fmt::MakeWriter;
 
 /// The default maximum number of buffered log lines.
